@@ -15,7 +15,7 @@ baseline cell = first seed of the window, canonical order, sequential):
            starts at VERIF_SEED * K): whole corpus compiled in canonical order + the package through cythonize.
   cold     every corpus module compiled alone in its own process.
   warm     n sequences (Walecki zig-zag paths and their reverses) in which EVERY ordered pair (m1, m2) of
-           corpus modules occurs adjacently: m2 compiled right after m1 in one process.
+           QUICK-corpus modules (also in the thorough tier) occurs adjacently: m2 compiled right after m1 in one process.
   batch    the package through cythonize([...], nthreads=n) for EVERY permutation of the 4-module list
            (24) with nthreads=2 plus 4 orders sequentially (quick); thorough: all 24 x n in {0, 2}.
 Oracle: every generated file (.c, .h, _api.h) of every module is byte-identical to the baseline cell.
@@ -130,8 +130,11 @@ def run(ctx):
         cells.append(('seed%d' % s, 'seed', str(s), {'seq': mods, 'batch': pkg, 'nthreads': 0}, s))
     for i, m in enumerate(mods):
         cells.append(('cold%d' % i, 'cold', m, {'seq': [m]}, base_seed))
-    n = len(mods) if len(mods) % 2 == 0 else len(mods) + 1
-    order = mods + [mods[0]] * (n - len(mods))      # pad to even with a repeat of the first module
+    # warm ordered-pair sequences always run over the QUICK corpus (the thorough-only modules - memoryviews, big constant
+    # tables, mixes - are covered by the seed and cold cells; 32 sequences x 32 modules do not fit the tier budget)
+    wmods = corpus_mod.corpus('quick')[1]
+    n = len(wmods) if len(wmods) % 2 == 0 else len(wmods) + 1
+    order = wmods + [wmods[0]] * (n - len(wmods))      # pad to even with a repeat of the first module
     for i, path in enumerate(walecki(n)):
         cells.append(('warm%d' % i, 'warm', ','.join(order[j] for j in path), {'seq': [order[j] for j in path]}, base_seed))
     nthreads = (0, 2)
